@@ -262,6 +262,8 @@ for _meth, _ax, _other, _rows in (('sort_index', '_index', '_columns', True), ('
         props=['C12'],
         params=dict(self='SlFrame', ascending='bool', kind='elem', key='elem'), order=['self'], kwonly=['ascending', 'kind', 'key'],
         result='SlResult',
+        concrete_inputs='specs.t2_sort:concrete_inputs_axis', witness_on_unknown=True, witness_always=True, requires_concrete=[],
+        ensures_concrete=[f'ref_sorted_axis(self, result, {0 if _rows else 1}, ascending, key)'],
         calls={
             'sort_index_for_order': _SIFO(_ax),
             f'self.{_ax}.__getitem__': dict(params=dict(o='elem'), order=['o'], result='elem', ensures=[f'result == ufe("take_labels", self.{_ax}, o)']),
@@ -287,6 +289,8 @@ contract('static_frame/core/series.py', 'Series.sort_index', key='Series.sort_in
     props=['C12', 'C01'],
     params=dict(self='SlSeries', ascending='bool', kind='elem', key='elem'), order=['self'], kwonly=['ascending', 'kind', 'key'],
     result='SlSeriesResult',
+    concrete_inputs='specs.t2_sort:concrete_inputs_axis_series', witness_on_unknown=True, witness_always=True, requires_concrete=[],
+    ensures_concrete=['ref_sorted_axis(self, result, 0, ascending, key)'],
     requires=['self.values.ndim == 1'],
     calls={
         'sort_index_for_order': _SIFO('_index'),
@@ -303,3 +307,29 @@ contract('static_frame/core/series.py', 'Series.sort_index', key='Series.sort_in
         'result.name == self._name',
         'not result.values.writeable and result.values.src != self.values.src and result.values.dtype == self.values.dtype',      # a new read-only array
     ])
+
+
+def _axis_witnesses(series):
+    import numpy as np
+    import static_frame as sf
+    out = []
+    keys = [None, lambda ix: -ix.values, lambda ix: ix.values % 2, lambda ix: sf.Index(ix.values * -3)]
+    frames = [sf.Frame(np.arange(12).reshape(4, 3) * 1.5),                                                           # auto-supplied positional labels on both axes
+              sf.Frame(np.arange(12).reshape(4, 3), index=(3, 0, 2, 1), columns=(2, 0, 1), name='n'),
+              sf.Frame.from_dict(dict(a=(1, 2, 3, 4), b=('p', 'q', 'r', 's')), index=(10, 7, 9, 8)).rename('m')]
+    for f in frames:
+        if not series and f.columns.values.dtype.kind not in 'iu':
+            f = f.relabel(columns=range(f.shape[1]))          # the arithmetic key functions need numeric labels on whichever axis is sorted
+        for k in keys:
+            for asc in (True, False):
+                c = f.iloc[:, 0].rename(f.name) if series else f
+                out.append(dict(self=c, ascending=asc, kind='mergesort', key=k))
+    return out
+
+
+def concrete_inputs_axis(model):
+    return _axis_witnesses(False)
+
+
+def concrete_inputs_axis_series(model):
+    return _axis_witnesses(True)
